@@ -146,6 +146,9 @@ def plan(tier, seed):
     phases.append({'name': 'empty-sheets-between', 'cases': [{'layout': list(l)} for l in
                                                              itertools.product('DE', repeat=4) if l.count('D') >= 2],
                    'runner': 'run_empty_between', 'chunk': 2})
+    # "the current value(s)": the referenced cells get new values through Executor.set_cells (0, 0.0, FALSE and the empty text
+    # included - the values an `or` default swallows), one or two cells at a time
+    phases.append({'name': 'current-values', 'cases': list(gen_current()), 'runner': 'run_current', 'chunk': 40})
     if tier == 'thorough':
         phases.append({'name': 'far-rows', 'cases': [{'rows': [65536, 99999, 1048576], 'mode': 'entry'}], 'runner': 'run_rows',
                        'chunk': 1})
@@ -510,6 +513,67 @@ def run_rows(cases, stats):
                     vio.append({'i': i, 'desc': {'kind': 'row', 'digits': len(str(r)), 'position': 'bare' if col == 'A' else 'SUM',
                                                  'outcome': out[0] if out[0] != 'VALUE' else 'VALUE_MISMATCH'},
                                 'expected': r * 7 + 1, 'observed': [r, D.enc(out[1]) if out[0] == 'VALUE' else list(out)]})
+    return vio
+
+
+CUR_VALUES = [0, 0.0, False, '', 7, -2.5, True, 'txt']
+CUR_TARGETS = [('S', 'A1'), ('S', 'B2'), ('O t', 'A1'), ('O t', 'C3'), ('S', 'F1')]      # F1 holds a formula (=A1*2)
+CUR_REFS = {   # reader cell on sheet S -> (formula, the cells it denotes in row-major order)
+    'J1': ('=A1', [('S', 'A1')]), 'J2': ('=$B$2', [('S', 'B2')]), 'J3': ("='O t'!A1", [('O t', 'A1')]),
+    'J4': ("='O t'!$C3", [('O t', 'C3')]), 'J5': ('=F1', [('S', 'F1')]),
+    'J6': ('=INDEX(A1:B2,2,2)', [('S', 'B2')]), 'J7': ("=INDEX('O t'!A:C,3,3)", [('O t', 'C3')]),
+    'J8': ('=INDEX(F:F,1)', [('S', 'F1')]),
+}
+CUR_PLANT = {('S', 'A1'): 11, ('S', 'B2'): 'old', ('O t', 'A1'): True, ('O t', 'C3'): 44.5, ('S', 'B1'): 12, ('S', 'A2'): 21}
+
+
+def cur_scaffold():
+    s = {a: v for (t, a), v in CUR_PLANT.items() if t == 'S'}
+    s['F1'] = '=A1*2'
+    for a, (f, _) in CUR_REFS.items():
+        s[a] = f
+    o = {a: v for (t, a), v in CUR_PLANT.items() if t == 'O t'}
+    return [('S', s), ('O t', o)]
+
+
+def gen_current():
+    for ti, t in enumerate(CUR_TARGETS):
+        for v in range(len(CUR_VALUES)):
+            yield {'ov': [[ti, v]]}
+    for (t1, t2) in itertools.combinations(range(len(CUR_TARGETS)), 2):
+        for v1, v2 in itertools.product(range(4), repeat=2):      # pairs of falsy values
+            yield {'ov': [[t1, v1], [t2, v2]]}
+
+
+def run_current(cases, stats):
+    from mc import sweep as SW
+    cls = SW.get_class(cur_scaffold(), stats=stats)
+    vio = []
+    readers = list(CUR_REFS)
+    for i, c in enumerate(cases):
+        cur = dict(CUR_PLANT)
+        ov = []
+        for ti, vi in c['ov']:
+            cur[CUR_TARGETS[ti]] = CUR_VALUES[vi]
+            ov.append((CUR_TARGETS[ti], CUR_VALUES[vi]))
+        outs = SW.run(cls, ov, readers, stats)
+        for a, o in zip(readers, outs):
+            (t, addr), = CUR_REFS[a][1]
+            if (t, addr) == ('S', 'F1') and ('S', 'F1') not in [x for x, _ in ov]:
+                a1 = cur[('S', 'A1')]
+                if isinstance(a1, str):
+                    continue      # text * 2: C01's business
+                want = a1 * 2
+            else:
+                want = cur[(t, addr)]
+            stats['validated'] += 1
+            stats['nontrivial'] += 1
+            ok = o[0] == 'VALUE' and type(o[1]) is type(want) and o[1] == want
+            if not ok:
+                vio.append({'i': i, 'desc': {'position': 'current-value', 'reader': CUR_REFS[a][0], 'falsy': not want,
+                                             'outcome': 'VALUE_MISMATCH' if o[0] == 'VALUE' else o[0]},
+                            'expected': D.enc(want), 'observed': [D.enc(o[1]) if o[0] == 'VALUE' else list(o)]})
+                break
     return vio
 
 
